@@ -405,6 +405,17 @@ def evaluate(p):
             want = M0 * f[:, None] * f[None, :]
             o.close("wavelength_scaling", _maxabs(Mw.astype(float) - want) / max(_maxabs(want), 1e-300),
                     TOL_SCALE, sub="wl=" + wl)
+        # "summed over layers": the sum does not depend on the order in which the layers are listed; a layer is
+        # the triple (altitude, r0, L0).  Every permutation of the full layer set (float32 accumulation order
+        # changes the last bits only).  Added after a seeded change sorted the altitudes but not the r0/L0 lists.
+        import itertools as _it
+        for perm in _it.permutations(FULL):
+            if list(perm) == list(FULL):
+                continue
+            Mp_ = numpy.asarray(build(sensors, [LAYERS[i] for i in perm])).astype(float)
+            o.stat("lib_calls", 1)
+            o.close("layer_order_irrelevant", _maxabs(Mp_ - M0) / max(_maxabs(M0), 1e-300), TOL_ADD,
+                    sub="order=%s" % "".join(map(str, perm)))
         # multi-process assembly path (in-line pool), mixed wavelengths
         wl = ("57" * n)[:n]
         ser = built.get((wl, FULL))
